@@ -10,6 +10,9 @@
 package c08
 
 import (
+	"encoding/json"
+	"os"
+	"path/filepath"
 	"bufio"
 	"bytes"
 	"context"
@@ -659,6 +662,23 @@ func (Area) Exec(input string) string {
 	return "BADOP"
 }
 
+// closeTimeout is the bridge's WebSocket close timeout as the fact extractor read it from the sources
+// (wsCloseTimeoutMs in $VERIF_WORK/facts.json); 3 s if the tree under test has none.
+func closeTimeout() time.Duration {
+	d := 3 * time.Second
+	if b, err := os.ReadFile(filepath.Join(os.Getenv("VERIF_WORK"), "facts.json")); err == nil {
+		var facts []struct{ Name, Value string }
+		if json.Unmarshal(b, &facts) == nil {
+			for _, f := range facts {
+				if ms, err := strconv.Atoi(f.Value); f.Name == "wsCloseTimeoutMs" && err == nil && ms > 0 {
+					d = time.Duration(ms) * time.Millisecond
+				}
+			}
+		}
+	}
+	return d
+}
+
 // Every session has its own watchdog: a handler that has not returned `watchdog()` after the client saw the end
 // of the response (or gave up) is reported as stuck and the harness moves on. After a few stuck sessions the
 // budget shrinks so that a systematically hanging handler cannot stall the whole run.
@@ -964,14 +984,23 @@ func execWS(kv map[string]string) string {
 	// sp=stall: the client does not read while the target's (large) first answer is being sent, then sends its
 	// last message (a framing error) so that Forward returns while that Send is still in flight, then reads on
 	stall := kv["sp"] == "stall"
+	// sp=flood: the client writes all its messages without waiting and reads nothing until Forward has returned (and the
+	// bridge had the time to close): at the moment of the close the server still has unread input from the client and a
+	// response tail the client has not received yet (its receive buffer is small). Nothing of the response may be lost.
+	flood := kv["sp"] == "flood"
+	// sp=mute: the client never answers the close frame and keeps the connection open: the handler must give up after
+	// the bridge's close timeout
+	mute := kv["sp"] == "mute"
 
 	d := websocket.Dialer{Subprotocols: []string{"grpc-websockets"}, HandshakeTimeout: 10 * time.Second,
 		ReadBufferSize: 1 << 16, WriteBufferSize: 1 << 16}
-	if stall {
+	if stall || flood {
 		d.NetDialContext = func(ctx context.Context, network, addr string) (net.Conn, error) {
 			c, err := (&net.Dialer{}).DialContext(ctx, network, addr)
 			if tc, ok := c.(*net.TCPConn); ok {
-				_ = tc.SetReadBuffer(1 << 16) // a fixed small receive buffer: the server's write must block
+				// a fixed small receive buffer: the server's write must block (stall) / the tail of its response stay in its
+				// send queue (flood). Not smaller than the loopback MSS, or the transfer itself crawls.
+				_ = tc.SetReadBuffer(1 << 16)
 			}
 			return c, err
 		}
@@ -985,16 +1014,21 @@ func execWS(kv map[string]string) string {
 		return fmt.Sprintf("up=%d hs=%s ws=- cl=none %s", code, sc.handlerState(), sc.observed())
 	}
 	defer c.Close()
-	// the default handler answers the close frame and turns a failure of that write (the server has already
-	// closed the TCP connection) into the read error; the close code is what we want to observe
-	c.SetCloseHandler(func(int, string) error { return nil })
+	// answer the close frame like every WebSocket client does (the bridge waits for it, bounded by its close timeout),
+	// but do not let a failure of that write (the server may have closed already) hide the close code we want to observe
+	c.SetCloseHandler(func(code int, _ string) error {
+		if !mute {
+			_ = c.WriteControl(websocket.CloseMessage, websocket.FormatCloseMessage(code, ""), time.Now().Add(time.Second))
+		}
+		return nil
+	})
 
 	limit := 10 * watchdog() // session watchdog
 	var got [][]byte
 	cl := "none"
 	rdone := make(chan struct{})
 	startReader := make(chan struct{})
-	if !stall {
+	if !stall && !flood {
 		close(startReader)
 	}
 	go func() {
@@ -1032,6 +1066,25 @@ func execWS(kv map[string]string) string {
 		}
 	}
 	blk, fwd := "no", "pending"
+	if flood {
+		wdone := make(chan struct{})
+		go func() { // writer of its own: it may block once the server stops reading
+			defer close(wdone)
+			for _, m := range msgs {
+				_ = c.SetWriteDeadline(time.Now().Add(limit))
+				if err := c.WriteMessage(websocket.BinaryMessage, m); err != nil {
+					return
+				}
+			}
+		}()
+		if after(sc.fwdDone, watchdog()) {
+			fwd = "returned"
+			time.Sleep(200 * time.Millisecond) // let the bridge write the trailer and close
+		}
+		close(startReader)
+		msgs = nil
+		defer func() { <-wdone }()
+	}
 	for i, m := range msgs {
 		if stall && i == len(msgs)-1 {
 			if after(sc.sendIn, watchdog()) && !after(sc.sendOut, 250*time.Millisecond) {
@@ -1052,6 +1105,9 @@ func execWS(kv map[string]string) string {
 		close(startReader)
 		extra = fmt.Sprintf(" blk=%s fwd=%s", blk, fwd)
 	}
+	if flood {
+		extra = fmt.Sprintf(" fwd=%s", fwd)
+	}
 	select {
 	case <-rdone:
 	case <-time.After(limit + time.Second):
@@ -1059,6 +1115,35 @@ func execWS(kv map[string]string) string {
 	}
 	if cl == "timeout" {
 		hangs.Add(1)
+	}
+	if mute {
+		// the client saw the close frame, does not answer and keeps the connection open: the handler must return and the
+		// connection be closed by the bridge within its close timeout
+		bound := closeTimeout()
+		t0 := time.Now()
+		ret := sc.wait(bound + 2*time.Second)
+		el := time.Since(t0)
+		// the connection must be closed from the server side by then: a read ends with an error quickly
+		_ = c.UnderlyingConn().SetReadDeadline(time.Now().Add(500 * time.Millisecond))
+		_, rerr := c.UnderlyingConn().Read(make([]byte, 1))
+		var ne net.Error
+		tcp := "closed"
+		if rerr == nil || (errors.As(rerr, &ne) && ne.Timeout()) {
+			tcp = "open"
+		}
+		verdict := "ok"
+		if !ret {
+			verdict = "stuck"
+		} else if el > bound+1500*time.Millisecond {
+			verdict = "late"
+		}
+		c.Close()
+		hsm := "returned"
+		if !ret {
+			hsm = "stuck"
+			hangs.Add(1)
+		}
+		return fmt.Sprintf("up=%d hs=%s bound=%s tcp=%s ws=%s cl=%s %s", resp.StatusCode, hsm, verdict, tcp, cbList(got), cl, sc.observed())
 	}
 	c.Close()
 	hs := sc.handlerState()
@@ -1476,6 +1561,35 @@ func genStalledWS(r *rand.Rand) string {
 	return fmt.Sprintf("ws k=%s cd=raw rt=ok hd=ok:x ms=%s rs=%s fs=0:x tm=- ea=%d sp=stall", kind, strings.Join(items, ","), cbList(rs), nm)
 }
 
+// genFlood: the bridge ends the call (early answer / unary request already taken) while the client keeps writing and
+// has not read anything yet; the response is larger than the client's receive buffer
+func genFlood(r *rand.Rand) string {
+	kind := common.Pick(r, []string{"ss", "bd", "bd", "cs"})
+	items := []string{"d:" + CB(payloadBytes(r, 1+r.Intn(8))), "d:" + CB(payloadBytes(r, 1+r.Intn(300)))}
+	for i, n := 0, 1+r.Intn(4); i < n; i++ {
+		items = append(items, "d:"+CB(bytes.Repeat([]byte{byte('a' + r.Intn(26))}, 16384+r.Intn(60000))))
+	}
+	var rs [][]byte
+	nr := 4 + r.Intn(5)
+	if kind == "cs" {
+		nr = 1
+	}
+	for i := 0; i < nr; i++ {
+		sz := 65536 + r.Intn(20000)
+		if kind == "cs" {
+			sz = 400000 + r.Intn(100000)
+		}
+		rs = append(rs, bytes.Repeat([]byte{byte('A' + r.Intn(26))}, sz))
+	}
+	ea := "-"
+	if kind != "ss" {
+		ea = "1"
+	}
+	code := common.Pick(r, []uint32{0, 1, 7, 16})
+	count("ws:sp:flood")
+	return fmt.Sprintf("ws k=%s cd=raw rt=ok hd=ok:x ms=%s rs=%s fs=%d:%s tm=- ea=%s sp=flood", kind, strings.Join(items, ","), cbList(rs), code, CB([]byte("no")), ea)
+}
+
 func (Area) Gen(r *rand.Rand, tier string, emit func(string)) {
 	// url.PathEscape on all 256 single bytes, exhaustively, every run
 	for b := 0; b < 256; b++ {
@@ -1525,5 +1639,12 @@ func (Area) Gen(r *rand.Rand, tier string, emit func(string)) {
 	}
 	for i := 0; i < nS; i++ {
 		emit(genStalledWS(r))
+	}
+	nF := 6
+	if tier == "thorough" {
+		nF = 60
+	}
+	for i := 0; i < nF; i++ {
+		emit(genFlood(r))
 	}
 }
